@@ -69,6 +69,9 @@ def gen_cases(prop, seed):
         # judged by the history engine, reported under this property
         from .hgen import gen_history
         return [gen_history(seed, prop)]
+    if prop in ('C02', 'C12', 'C01', 'C03') and seed % 10 == 1:
+        top, knobs = gen.gen_motif(seed)
+        return [make_case(top, knobs, {"motif": True})]
     if prop == 'C10' and seed % 2:
         top, feat = gen.gen_tree(rng, FLAT_PROFILE)
         _make_flattenable(top)
